@@ -33,6 +33,7 @@ extern long vf_alloc_ord, vf_fail_at, vf_fail_at2, vf_alloc_fails, vf_bad_free;
 extern size_t vf_max_alloc;
 extern int vf_shadow_on;
 extern int vf_send_fail_countdown;
+extern int vf_defer_connect;
 
 vsock_t *vs_find(const coap_socket_t *sock);
 void vs_push(vsock_t *vs, const coap_address_t *from, const coap_address_t *to,
